@@ -680,12 +680,18 @@ class Analysis:
                 else:
                     self._add_rng(('npGlobal', fn_name))
             if ch[-1] in ('eigsh', 'svds', 'eigs', 'lobpcg'):
+                # ARPACK: the start vector and (recent SciPy) the generator of the restart vectors must both be given
                 v0 = [kw for kw in e.keywords if kw.arg in ('v0', 'X')]
+                seeded = any(kw.arg in ('rng', 'random_state') for kw in e.keywords) or \
+                    any(kw.arg is None and isinstance(kw.value, ast.Call) and 'seed' in ast.unparse(kw.value.func)
+                        for kw in e.keywords)
                 if not v0 or (isinstance(v0[0].value, ast.Constant) and v0[0].value.value is None) or \
                         self._is_none_default_param(v0[0].value):
                     self._add_rng(('entropy', ch[-1] + ' without v0'))
+                elif not seeded:
+                    self._add_rng(('entropy', ch[-1] + ' restarts unseeded'))
                 else:
-                    self._add_rng(('fresh', ch[-1] + ' v0'))
+                    self._add_rng(('fresh', ch[-1] + ' v0 and rng'))
             if ch[-1] == 'check_random_state' and e.args:
                 a0 = e.args[0]
                 if _is_self_attr(a0):
